@@ -11,7 +11,8 @@ Theorem C12_migrate_order_obligations :
   list_eqb mphase_eqb migrate_file_order model_order = true /\   (* copy, then metadata, then source delete *)
   metadata_failure_deletes_destination = true /\                 (* rollback of the cold copy *)
   copy_failure_returns_before_metadata = true /\
-  reconcile_deletes_only_hot = true.
+  reconcile_deletes_only_hot = true /\
+  migrate_file_serialized_per_path = true.                       (* Manager.migrating guard before the copy *)
 Proof. vm_compute. repeat split. Qed.
 Print Assumptions C12_migrate_order_obligations.
 
